@@ -7,6 +7,13 @@ HERE = os.path.dirname(os.path.dirname(os.path.abspath(__file__)))
 
 # id -> (category, technique, text, note, design_ref)
 CLAIMED = {
+    "C16": (
+        "model_checking",
+        "exhaustive enumeration of reachable states x every state-object query x every mode subset/order, on three representations, against closed Gaussian formulas and a dense truncated-Fock reference",
+        "Every state reached by <= 2 operations of an 8-letter small-amplitude alphabet on 2 modes (<= 3 on 1 mode, <= 1-2 on 3 modes for the phase-space representations), deduplicated (441 state objects quick), is built on the Gaussian, bosonic and Fock simulators and asked ~40 queries each: mean_photon, number_expectation (all ordered pairs), quad_expectation (3 angles), wigner (non-square grid), parity_expectation and reduced_dm on every subset/order, fock_prob on all patterns with <= 2 photons, all_fock_probs, fidelity_vacuum / fidelity_coherent, is_pure, poly_quad_expectation. Every answer equals the independent reference; identities between methods hold; a method asked about subset S agrees with the same method on backend.state(modes=S); no query mutates the state.",
+        "Reference truncation error (cutoff 12) is measured per state and enters the tolerance (x4 c^2 for moments); phase-space reduced_dm is compared up to the norm beyond the requested cutoff. wigner is compared in the orientation returned ([len(pvec), len(xvec)] on all representations; the docstring says the transpose). is_pure of Fock/bosonic states reports the representation and is not judged.",
+        "DESIGN.md section 4 (C16)",
+    ),
     "C02": (
         "exploration",
         "exhaustive enumeration of decomposable operations x parameter lattice x dagger x ordered targets x compile targets, and of matrix-valued operations over finite structured matrix families, through the real Compiler.decompose, judged by the documented reference map",
